@@ -57,7 +57,7 @@ K_HISTORY = "depends-on-earlier-runs-in-the-same-process"
 # uninitialised memory
 # routines acting in a continuous Box: before run B a *different* training (same routine, other action bounds)
 # is executed in the same process, so state kept across calls (module-level caches) becomes visible
-HISTORY = {"ddpg", "td3", "td3_lap", "sac", "td7", "mrq", "pets", "mrq@ls0", "mrq@full"}
+HISTORY = {"ddpg", "td3", "td3_lap", "sac", "td7", "mrq", "pets", "mrq@ls0", "mrq@full", "td3@f64box", "sac@f64box", "mrq@prefilled"}
 
 P_A = dict(glob=101, shift=0.0)
 SHIFT = 1_000_003.217  # ~1e6 s, deliberately not a round number (a round shift vanishes under `int(t * 1000) % 100000`)
@@ -82,7 +82,7 @@ def _seeds(tier, vs):
 def items(tier, seed):
     out = []
     seeds = _seeds(tier, seed)
-    cost = {"mrq": 9, "mrq@ls0": 9, "mrq@full": 9, "uts": 8, "smt": 5, "active_mt": 5, "active_mt@ties": 5, "pets": 5, "td7": 5, "sac": 4}
+    cost = {"mrq": 9, "mrq@ls0": 9, "mrq@full": 9, "mrq@prefilled": 30, "uts": 8, "smt": 5, "active_mt": 5, "active_mt@ties": 5, "pets": 5, "td7": 5, "sac": 4}
     if tier == "quick":
         for fam, names in D.FAMILIES.items():
             jobs = [[n, 0, seeds[0], 10 * seed + 5] for n in names]
